@@ -460,10 +460,17 @@ Fixpoint eval_expr (n : nat) (P : program) (D : db) (scope : list var) (en : env
             (fun c =>
                let inputs := combine (map fst args) c in
                rows <- rows_of n' P D p inputs ;;
+               (* a call to an injectible predicate passes its arguments (null included) to the
+                  head variables; a table is joined, and null joins with nothing *)
+               let eqf := match find_pdef p P with
+                          | Some d => match p_kind d with
+                                      | KFunc => fun a b => (is_null a && is_null b) || sql_eq a b
+                                      | KTable => sql_eq end
+                          | None => sql_eq end in
                flat_mapM
                  (fun r =>
                     if forallb (fun fv => match lookup_field (fst fv) r with
-                                          | Some cell => sql_eq (snd fv) cell | None => false end) inputs
+                                          | Some cell => eqf (snd fv) cell | None => false end) inputs
                     then match lookup_field f_value r with Some v => Ok [v] | None => Fail E_TYPE end
                     else Ok []) rows)
             (choices vs)
